@@ -12,7 +12,7 @@ VERIF = os.path.dirname(os.path.dirname(os.path.abspath(__file__)))
 READY = [l.strip() for l in open(os.path.join(VERIF, "tools", "ready.txt")) if l.strip() and not l.startswith("#")]
 
 P = {
- "C01": dict(cat="proof", tech="algebraic summaries of the closure/time-bookkeeping code (abstract interpretation in rational functions) + structural routing rules",
+ "C01": dict(cat="proof", tech="algebraic summaries of the closure/time-bookkeeping code (abstract interpretation in rational functions; array contents as index-range pieces checked by induction) + provenance interpretation of the entry points",
    text="Hermite closure of every segment polynomial, pinned boundary rows, knot-time bookkeeping and constructor routing are proved as identities/structural facts on the instantiated AST for all N, DIM and positive durations in exact arithmetic.",
    note="exact real arithmetic; floating-point equality of left/right limits not decided; Eigen op semantics trusted"),
  "C02": dict(cat="proof", tech="algebraic summaries: row space of the assembled block rows == continuity jumps; solver unified with (block) Thomas; closed-form inverses/kernels checked entrywise",
@@ -30,16 +30,16 @@ P = {
  "C06": dict(cat="proof", tech="algebraic summaries of the six energy-gradient getters vs first-variation / conserved-quantity formulas generated symbolically",
    text="dE/dC, dE/dT partials and the closed-form total gradients equal derivatives of the C04 energy form under the closure/continuity constraints.",
    note="exact arithmetic; relies on C02 (spline is the minimiser)"),
- "C07": dict(cat="proof", tech="algebraic summary of the quadrature lambda differentiated symbolically + must-precede/exhaustiveness rules on evaluate()",
+ "C07": dict(cat="proof", tech="algebraic summary of the quadrature lambda differentiated symbolically + algebraic summary of evaluate() per flag assignment (abstract interpretation with opaque functors/maps; decode, propagation inputs, completed gradient struct, grad_out formulas) + liveness of gradient buffers",
    text="The gradient assembly is the chain rule applied to the extracted cost expression: quadrature derivative terms, assembly order, complete energy accumulation, layout-consistent back-substitution.",
    note="user functors/maps opaque and assumed to return true partials; exact arithmetic"),
- "C08": dict(cat="proof", tech="structural rule on cost addends + algebraic summaries of sample arguments, basis rows and trapezoid weights",
+ "C08": dict(cat="proof", tech="returned cost expression from the algebraic summary of evaluate() per flag assignment / sign of the energy weight + algebraic summaries of sample arguments, basis rows and trapezoid weights",
    text="The returned scalar receives exactly the four specified addends; sample arguments, basis rows and weights match the trapezoid definition.",
    note="exact arithmetic; user functors opaque"),
- "C09": dict(cat="proof", tech="sibling agreement of encode/decode/gradient lambdas + layout formula summary + write->dirty typestate",
+ "C09": dict(cat="proof", tech="abstract interpretation of the layout builder, getDimension, generateInitialGuess and evaluate() per assignment of the configuration flags (content of the layout, slots written, what reaches spline.update, grad_out formulas) + write->dirty typestate + pointer-provenance interpretation of the copy operations",
    text="Layout formulas, agreement of the three traversals, dirty marking by every writer of layout inputs, pinning and the exposed spline.",
    note="map protocol honoured by user maps; round trip also needs C17"),
- "C10": dict(cat="proof", tech="region definedness (def-before-use of persistent buffers per operation) over the n in {1,2,>=3} abstraction",
+ "C10": dict(cat="proof", tech="region definedness (def-before-use of persistent buffers per operation) replayed on the index skeleton of the summaries + path-sensitive whole-definition dataflow of the optimizer workspace buffers per evaluation + scenario interpretation of Workspace::resize",
    text="Every persistent buffer region read in an operation is defined earlier in the same operation; query write-sets are dead state.",
    note="bit-identity concluded from 'same operations on same operands' (IEEE determinism)"),
  "C11": dict(cat="proof", tech="typestate dataflow: write->invalidate must-pass-through, ensure-before-read dominance, hand-over ordering",
@@ -54,7 +54,7 @@ P = {
  "C14": dict(cat="proof", tech="taint of the start time, zero-sum/difference-form and weighted-homogeneity (units) inference on algebraic summaries, mirror symmetry of blocks",
    text="Necessary conditions of the four invariances as degree/weight/symmetry facts on the summaries; sufficiency via C02.",
    note="exact arithmetic"),
- "C15": dict(cat="proof", tech="copy-operation exhaustiveness, pointer re-binding pattern, deep-copy pattern and value-class member typing on the instantiated AST",
+ "C15": dict(cat="proof", tech="pointer-provenance / ownership abstract interpretation of the copy operations and setters, once per alias configuration of the inputs (own default vs caller's map, workspace present or not, self-assignment) + value-class member typing on the instantiated AST",
    text="Aliasing after copy is decided from types and assignments alone, hence for every history of copies, assignments, mutation and destruction.",
    note="C++ object semantics; last_error_message_ is a reasoned exception"),
  "C16": dict(cat="proof", tech="extraction and normalisation of the rejection predicates; verdict/message typestate; PPolyND rejection-path state; compile-time witness for the threshold",
